@@ -403,7 +403,7 @@ def _full_backward(ctx):
         if ok:
             lp = d.loops[0]
             ev = [e for e in lp.events if e[0] == "backward"]
-            ok = lp.step == -1 and to_rat(lp.t0).equals(T) and to_rat(lp.t_exit).equals(s) and lp.enters and len(ev) == 1 and dict(ev[0][2]) == {"record_detectors": rd, "reset_fields": rf} and to_rat(r[0]).equals(s)
+            ok = lp.step == -1 and to_rat(lp.t0).equals(T) and to_rat(lp.t_exit).equals(s) and lp.enters and len(ev) == 1 and {k_: v_ for k_, v_ in ev[0][2] if k_ != "materials"} == {"record_detectors": rd, "reset_fields": rf} and to_rat(r[0]).equals(s)
         ctx.ob("R3.6", f"full_backward[record_detectors={rd},reset_fields={rf}]", ok, "one reverse step per iteration with the caller's flags, from the current index down to start_time_step, where it stops: every earlier step is reproduced once and nothing before the start", [(to_rat(lp.t0).fmt(), to_rat(lp.t_exit).fmt(), lp.step) for lp in d.loops], "T -> s by -1")
 
 
